@@ -77,7 +77,9 @@ def client_cases(draw):
             'provider_delay': [draw(st.sampled_from([0, 0, 1, 3, 6])) for _ in range(nconn)],
             'data_encoding': draw(encoding()), 'metadata_encoding': draw(encoding()), 'lease': draw(st.booleans()),
             'frag': draw(st.sampled_from([None, 64, 200])), 'msg': draw(st.booleans()),
-            'req_after_reconnect': draw(st.booleans())}
+            'req_after_reconnect': draw(st.booleans()),
+            # the client may have a lease publisher of its own; the SETUP lease flag only says whether it HONOURS leases
+            'client_lease_publisher': draw(st.sampled_from([False, False, True]))}
 
 
 def judge_client(case):
@@ -93,6 +95,8 @@ def judge_client(case):
         cfg['connect'] = None
     if case['lease']:
         cfg['lease'] = {'queue': 0}
+    if case.get('client_lease_publisher'):
+        cfg['client_lease_publisher'] = True
     if case['payload'] is not None:
         d, m = A.payload_bytes(77, 0, 0, case['payload'])
         cfg['setup_payload'] = [d, m]
